@@ -494,7 +494,27 @@ class MockIncludeDirective:
         source = self.renderer.document["source"]
         rsource = self.renderer.reporter.source
         line_func = getattr(self.renderer.reporter, "get_source_and_line", None)
+
+        # prevent circular inclusion (as the docutils include directive does):
+        # the chain of (file, clip-options) currently being included
+        include_log: list[tuple[str, tuple]] = self.renderer.md_env.setdefault(
+            "include_log", [(os.path.normpath(Path(source).absolute()), (None,) * 4)]
+        )
+        include_key = (
+            os.path.normpath(path),
+            tuple(
+                self.options.get(name, None)
+                for name in ("start-line", "end-line", "start-after", "end-before")
+            ),
+        )
+        if include_key in include_log:
+            chain = " < ".join([str(path)] + [p for p, _ in reversed(include_log)])
+            raise DirectiveError(
+                2, f'Directive "{self.name}": circular inclusion: {chain}'
+            )
+
         try:
+            include_log.append(include_key)
             self.renderer.document["source"] = str(path)
             self.renderer.reporter.source = str(path)
             self.renderer.reporter.get_source_and_line = lambda li: (str(path), li)
@@ -514,6 +534,7 @@ class MockIncludeDirective:
                 heading_offset=self.options.get("heading-offset", 0),
             )
         finally:
+            include_log.pop()
             self.renderer.document["source"] = source
             self.renderer.reporter.source = rsource
             self.renderer.md_env.pop("relative-images", None)
